@@ -1301,7 +1301,11 @@ func (s *alphSim) reobserve(st simkit.Step) {
 		if n == 0 {
 			return
 		}
-		tx, _ = hex.DecodeString(s.txs[int(st.A)%n].id)
+		k := int(st.A) % n
+		if st.A < 0 {
+			k = n - 1 // the most recent transaction
+		}
+		tx, _ = hex.DecodeString(s.txs[k].id)
 	case 3:
 		tx = crypto.Keccak256([]byte("unknown"), []byte{byte(st.A)})
 		s.stats.Fault("reobserve-unknown-tx")
@@ -1533,6 +1537,19 @@ func (alphHarness) Gen(seed uint64, prop, tier string) *simkit.Program {
 		add("adv", 3*p.Cfg["poll_ms"], 0, 0, 0)
 		add("reorg", l+int64(r.Range(1, 3)), int64(2+r.Intn(2)), 0, 0)
 		add("adv", l*16*sec+int64(r.Range(1, 30))*sec, 0, 0, 0)
+	}
+	if prop == "C08" && r.P(0.3) {
+		// a re-observation request arrives when the chain is exactly one block short of the message's
+		// consistency level, long after the confirmation time has passed (the chain stalled)
+		l := int64(r.Range(1, 6))
+		add("ev", 0, l, int64(r.Intn(48))*4, 0)
+		if l > 1 {
+			add("blk", l-1, 0, 0, 0)
+		}
+		add("adv", l*16*sec+int64(r.Range(5, 60))*sec, 0, 0, 0)
+		add("reobs", -1, 0, 0, 0)
+		add("blk", 1, 0, 0, 0)
+		add("reobs", -1, 0, 0, 0)
 	}
 	if prop == "C08" {
 		// let pending messages mature, re-observe some again afterwards
